@@ -2,3 +2,5 @@ import CruxVerif.Props.C08
 #print axioms Props.C08.evict_race_pinned_order
 #print axioms Props.C08.evict_safe_swapped
 #print axioms Props.C08.evict_still_evicts
+#print axioms Props.C08.slot_invariant
+#print axioms Props.C08.slot_quiescent
